@@ -67,5 +67,9 @@ main(int argc, char *argv[])
 		}
 	}
 	close(fd);
+	if (getenv("E3_MAILEXIT") != NULL) {
+		/* a mailer that takes the message and then reports a temporary failure (EX_TEMPFAIL) */
+		return atoi(getenv("E3_MAILEXIT"));
+	}
 	return 0;
 }
